@@ -1,5 +1,6 @@
 """C11: remove_idle_qubits drops exactly the unused qubits and renumbers the rest."""
 import modcheck
+import modcorr
 
 PROP = "C11"
 PREFIXES = [[], ["validate"], ["unroll"], ["depth"], ["has_measurements", "num_qubits"], ["unroll", "validate"]]
@@ -13,6 +14,13 @@ def make_cases(rnd, tier, progs):
     for k in range(n):
         src = ps[k % len(ps)]
         body = [(0, q) for q in rnd.choice(PREFIXES)]
+        if rnd.random() < 0.45:
+            # other transformations first (on a module that may never have been unrolled): the transformation under
+            # test starts from whatever program and bookkeeping they leave
+            pre = [t for t in modcorr.TRANSFORMS]
+            body += [(0, rnd.choice(pre), True) for _ in range(rnd.randint(1, 2))]
+            if rnd.random() < 0.3:
+                body.append((0, rnd.choice(["unroll", "validate", "depth"])))
         nmod = 1
         inpl = rnd.random() < 0.7
         body.append((0, "remove_idle_qubits", inpl))
@@ -28,6 +36,15 @@ def make_cases(rnd, tier, progs):
             body.append((tgt, "validate"))
         hist, nobs = modcheck.hist_with_obs(rnd, body, nmod)
         out.append(dict(src=src, hist=hist, nobs=nobs, family="remove-idle"))
+    # a removal that makes further qubits idle, between two remove_idle_qubits (every structured program)
+    for src in modcheck.FIXED_PROGRAMS:
+        for mid in ("remove_barriers", "remove_measurements", "reverse_qubit_order", "populate_idle_qubits"):
+            for first_in_place in (True, False):
+                body = [(0, "remove_idle_qubits", first_in_place)]
+                tgt = 0 if first_in_place else 1
+                body += [(tgt, mid, True), (tgt, "remove_idle_qubits", True)]
+                hist, nobs = modcheck.hist_with_obs(rnd, body, 1 if first_in_place else 2)
+                out.append(dict(src=src, hist=hist, nobs=nobs, family="remove-idle-again-after-a-removal"))
     return out
 
 
